@@ -368,9 +368,26 @@ def coq_check_cases(tag, header, check_fn, cases, shards=NCPU, per_file=150, tim
     memory on a loaded machine) is retried once in four smaller pieces."""
     # the model files named in the header may lie outside the closure of props/Cxx.v: build them
     targets = []
-    for lib, mods in re.findall(r"From\s+(Dasp|DaspGen)\s+Require\s+(?:Import\s+|Export\s+)?([^\n]*?)\.\s*(?:\n|$)", header + "\n"):
-        for m in mods.split():
-            targets.append(("theories/" if lib == "Dasp" else "gen/") + m.replace(".", "/") + ".vo")
+    toks = header.replace("\n", " ").split()
+    i = 0
+    while i < len(toks):
+        if toks[i] == "From" and i + 3 < len(toks) and toks[i + 1] in ("Dasp", "DaspGen") and toks[i + 2] == "Require":
+            lib = toks[i + 1]
+            j = i + 3
+            if toks[j] in ("Import", "Export"):
+                j += 1
+            while j < len(toks):
+                t = toks[j]
+                last = t.endswith(".")
+                t = t.rstrip(".")
+                if re.match(r"^[A-Za-z_][\w']*(\.[A-Za-z_][\w']*)*$", t):
+                    targets.append(("theories/" if lib == "Dasp" else "gen/") + t.replace(".", "/") + ".vo")
+                j += 1
+                if last:
+                    break
+            i = j
+        else:
+            i += 1
     if targets:
         okb, logb = coq_make(targets)
         if not okb:
